@@ -47,26 +47,73 @@ func (g pkgGraph) files() map[string]string {
 				fmt.Fprintf(&sb, "  field r%d object:%s\n", k, ref)
 			}
 			sb.WriteString("}\n")
-			out[fmt.Sprintf("p%d/v1/f%d.j5s", pi, fi)] = sb.String()
+			out[pkgFileName(pi, fi)] = sb.String()
 		}
 	}
 	return out
 }
 
+func pkgFileName(pi, fi int) string { return fmt.Sprintf("p%d/v1/f%d.j5s", pi, fi) }
+
+// importSpans: the span the real front end recorded for each import statement of a source text
+// (SourceFile.source_locations, child "imports", child <index>), by index
+func importSpans(src string) map[int]span4 {
+	out := map[int]span4{}
+	for _, l := range observeFront(src).Locs {
+		if len(l.Path) == 2 && l.Path[0] == "imports" {
+			var idx int
+			if _, err := fmt.Sscanf(l.Path[1], "%d", &idx); err == nil {
+				out[idx] = span4{int(l.StartLine), int(l.StartCol), int(l.EndLine), int(l.EndCol)}
+			}
+		}
+	}
+	return out
+}
+
+// coq: the bundle as a model term: every file with its real text and, per reference in order, the package it
+// names with the span of the import statement that brings it in (a reference to the file's own package has no
+// import statement: span0; the loader drops the own package from the dependencies)
 func (g pkgGraph) coq() string {
+	files := g.files()
 	var ps []string
 	for pi, fs := range g.Imports {
 		var ffs []string
 		for fi, imps := range fs {
+			src := files[pkgFileName(pi, fi)]
+			spans := importSpans(src)
+			stmt := map[int]int{} // package -> index of its import statement (files(): first-seen order, own package skipped)
+			for _, d := range imps {
+				if _, ok := stmt[d]; !ok && d != pi {
+					stmt[d] = len(stmt)
+				}
+			}
 			var is []string
 			for _, d := range imps {
-				is = append(is, fmt.Sprint(d))
+				sp := "span0"
+				if idx, ok := stmt[d]; ok {
+					if s4, ok := spans[idx]; ok {
+						sp = s4.coq()
+					}
+				}
+				is = append(is, fmt.Sprintf("(%d%%N, %s)", d, sp))
 			}
-			ffs = append(ffs, fmt.Sprintf("mkSF %d [] [%s]", pi*10+fi, strings.Join(is, "; ")))
+			ffs = append(ffs, fmt.Sprintf("mkSF %d %s [%s]", pi*10+fi, vh.BytesTerm(src), strings.Join(is, "; ")))
 		}
 		ps = append(ps, fmt.Sprintf("(%d, [%s])", pi, strings.Join(ffs, "; ")))
 	}
 	return "[" + strings.Join(ps, "; ") + "]"
+}
+
+// fileID: the model's file id of a generated file name (p<pi>/v1/f<fi>.j5s -> pi*10+fi); 999 = not a file of the bundle
+func (g pkgGraph) fileID(name string) int {
+	for pi, fs := range g.Imports {
+		for fi := range fs {
+			if pkgFileName(pi, fi) == name {
+				return pi*10 + fi
+			}
+		}
+	}
+	return 999
 }
 
 func genPkgGraphs(r *vh.Rand, n int) []pkgGraph {
@@ -159,7 +206,14 @@ func runPkgLoad(cfg *vh.Config, res *vh.Result, caseNo *int) (terms []string, re
 			if o.Err != "" {
 				checkPositions(res, *caseNo, "pkgload", "package loading", o.Pos, g.files(), "", in)
 			}
-			terms = append(terms, fmt.Sprintf("CPkgLoad %s 0 %d %s", g.coq(), o.Kind, b(o.HasPos)))
+			where := "None"
+			for _, p := range o.Pos {
+				if p.HasPos {
+					where = fmt.Sprintf("(Some (%d%%N, %s))", g.fileID(p.File), span4{p.StartLine, p.StartCol, p.EndLine, p.EndCol}.coq())
+					break
+				}
+			}
+			terms = append(terms, fmt.Sprintf("CPkgLoad %s 0 %d %s", g.coq(), o.Kind, where))
 			recs = append(recs, vh.CaseRec{Case: *caseNo, Stream: "pkgload", Input: in, Impl: o})
 		}
 		*caseNo++
